@@ -110,7 +110,7 @@ def run_tlc(tp, dp, wd, tag, mode="", known="", cfg="Qcow2Env.cfg", spec="Qcow2E
             f.write(json.dumps({"e": "Meta", "id": 1, "p": {"n": 0}, "r": {"n": 0}, "rk": [], "pk": []}) + "\n")
     env = dict(os.environ, TRACE=tp, DEFS=dp, MODE=mode, KNOWN=known, JAVA_TOOL_OPTIONS=JAVA_OPTS)
     md = os.path.join(wd, f"states_{tag}")
-    cmd = ["tlc", "-workers", "1", "-metadir", md, "-cleanup", "-noGenerateSpecTE",
+    cmd = ["tlc", "-workers", "1", "-checkpoint", "0", "-metadir", md, "-cleanup", "-noGenerateSpecTE",
            "-config", cfg, spec]
     try:
         p = subprocess.run(cmd, cwd=SPEC, env=env, stdout=subprocess.PIPE, stderr=subprocess.STDOUT,
@@ -165,7 +165,9 @@ def run_batch(scens, wd, mode="", known="", par=8, chunk=None, isolate=False):
     names = [s["name"] for s in scens]
     assert len(set(names)) == len(names), "scenario names must be unique"
     if chunk is None:
-        chunk = max(1, (len(scens) + par - 1) // par)
+        # one TLC run per chunk: at most 2000 scenarios each (a TLC run of half an hour wants to write a
+        # checkpoint, which the depth-first state queue cannot), at least one chunk per worker
+        chunk = max(1, min(2000, (len(scens) + par - 1) // par))
     chunks = [scens[i:i + chunk] for i in range(0, len(scens), chunk)]
     results = {}
     stats = dict(states=0, distinct=0, crash_images=0, synced_crash_images=0)
